@@ -26,6 +26,9 @@ pub enum FrontKind {
     /// the same with the library's byte-equality consistency checker configured (every lookup compares all copies;
     /// ensure also compares what populate produces, which here is the read-only level's value for key 0)
     StackChecked,
+    /// the same n-shard directory through two kinds of handle: even handles are stacked Caches built with the generic
+    /// `CacheBuilder::writer(dir, n, capacity)`, odd ones `sharded::Cache::new(dir, n, capacity)`
+    Generic(usize),
 }
 
 impl FrontKind {
@@ -43,6 +46,8 @@ pub enum CapMode {
     /// sharded: total capacity 2 * shards + 1, which the shards do not divide: each directory holds
     /// ceil(total / shards) = 3 files before anything may be evicted from it
     Odd,
+    /// sharded: total capacity shards - 1, below the shard count (it is raised to one file per shard)
+    Tiny,
 }
 
 #[derive(Clone, Debug)]
@@ -63,7 +68,7 @@ impl Config {
     fn nshards(&self) -> usize {
         match self.front {
             FrontKind::Plain => 1,
-            FrontKind::Sharded(n) => n,
+            FrontKind::Sharded(n) | FrontKind::Generic(n) => n,
             FrontKind::Stack | FrontKind::StackChecked => 2,
         }
     }
@@ -72,6 +77,7 @@ impl Config {
             CapMode::Tight => 2,
             CapMode::Roomy => 1 << 40,
             CapMode::Odd => (2 * self.nshards() + 1).div_ceil(self.nshards()),
+            CapMode::Tiny => 1,
         }
     }
     fn total_capacity(&self) -> usize {
@@ -79,6 +85,7 @@ impl Config {
             CapMode::Tight => 2 * self.nshards(),
             CapMode::Roomy => 1 << 40,
             CapMode::Odd => 2 * self.nshards() + 1,
+            CapMode::Tiny => self.nshards() - 1,
         }
     }
     fn keys(&self) -> Vec<K> {
@@ -261,7 +268,9 @@ fn open_live(cfg: &Config) -> Live {
         world::plant(&ro.join("other"), b"bystander", 0o444, old - 120_000_000_000, old);
     }
     let handles = (0..cfg.handles)
-        .map(|_| match cfg.front {
+        .map(|hi| match cfg.front {
+            FrontKind::Generic(n) if hi % 2 == 0 => Handle::Stack(kismet_cache::CacheBuilder::new().writer(&w, n, cfg.total_capacity()).take().build()),
+            FrontKind::Generic(n) => Handle::Sharded(kismet_cache::sharded::Cache::new(w.clone(), n, cfg.total_capacity())),
             FrontKind::Plain => Handle::Plain(kismet_cache::plain::Cache::new(w.clone(), cfg.dir_capacity())),
             FrontKind::Sharded(n) => Handle::Sharded(kismet_cache::sharded::Cache::new(w.clone(), n, cfg.total_capacity())),
             FrontKind::Stack => Handle::Stack(
@@ -494,6 +503,32 @@ fn step(live: &mut Live, cfg: &Config, sym: &Sym, rep: &mut Report) -> Vec<(Stri
     let mut evicted_by_dir: BTreeMap<String, BTreeSet<String>> = BTreeMap::new();
     let mut listed: BTreeSet<String> = BTreeSet::new();
     let mut requeued_by_dir: BTreeMap<String, Vec<String>> = BTreeMap::new();
+    // a forced maintenance (load estimate far above the capacity) runs *after* the operation's own publication: the
+    // directory it lists then holds the new entry too.  (dir, name) published before the first listing of dir.
+    let mut published_before_listing: Vec<(String, String)> = Vec::new();
+    let mut listed_so_far: BTreeSet<String> = BTreeSet::new();
+    for e in &trace {
+        if matches!(e.kind, Kind::Rename | Kind::Link) && e.ok() {
+            if let Some(p) = &e.path2 {
+                if p.starts_with(&wroot) && !p.contains("/.kismet_temp/") {
+                    let rel = p[wroot.len()..].trim_start_matches('/');
+                    let pp = Path::new(rel);
+                    let dir = pp.parent().map(|d| d.to_string_lossy().into_owned()).unwrap_or_default();
+                    let name = pp.file_name().unwrap().to_string_lossy().into_owned();
+                    if !listed_so_far.contains(&dir) {
+                        published_before_listing.push((dir, name));
+                    }
+                }
+            }
+        }
+        if e.kind == Kind::Opendir && e.ok() {
+            if let Some(p) = &e.path {
+                if p.starts_with(&wroot) && !p.ends_with(".kismet_temp") {
+                    listed_so_far.insert(p[wroot.len()..].trim_start_matches('/').to_string());
+                }
+            }
+        }
+    }
     for e in &trace {
         if e.kind == Kind::Utimens && e.ok() && e.sets_mtime {
             if let Some(p) = &e.path {
@@ -537,6 +572,14 @@ fn step(live: &mut Live, cfg: &Config, sym: &Sym, rep: &mut Report) -> Vec<(Stri
             .filter(|(_, v)| &v.0 == dir)
             .map(|(rel, v)| (v.1.clone(), before[rel].meta.mtime, before[rel].meta.accessed()))
             .collect();
+        let mut before_entries = before_entries;
+        for (d, name) in &published_before_listing {
+            if d == dir && listed.contains(dir) {
+                // the freshly published entry: newest, unread (replacing what the key held there before)
+                before_entries.retain(|e| &e.0 != name);
+                before_entries.push((name.clone(), i128::MAX / 4, false));
+            }
+        }
         let ev = evicted_by_dir.get(dir).cloned().unwrap_or_default();
         // re-queued entries, in order, read off the trace: a re-queue is a timestamp update that sets the
         // mtime of an entry of this directory (the snapshot alone would miss an entry that is re-queued and
@@ -755,6 +798,8 @@ fn parse_cfg(v: &Value) -> Config {
         FrontKind::Stack
     } else if f == "StackChecked" {
         FrontKind::StackChecked
+    } else if f.starts_with("Generic(") {
+        FrontKind::Generic(f.trim_start_matches("Generic(").trim_end_matches(')').parse().unwrap())
     } else {
         FrontKind::Sharded(f.trim_start_matches("Sharded(").trim_end_matches(')').parse().unwrap())
     };
@@ -763,6 +808,7 @@ fn parse_cfg(v: &Value) -> Config {
         cap: match v["cap"].as_str().unwrap() {
             "Tight" => CapMode::Tight,
             "Odd" => CapMode::Odd,
+            "Tiny" => CapMode::Tiny,
             _ => CapMode::Roomy,
         },
         handles: v["handles"].as_u64().unwrap() as usize,
@@ -801,7 +847,7 @@ fn bfs(cfg: &Config, depth: usize, shard: Shard, rep: &mut Report, wall_cap_s: f
                     rep.violation(format!("history:{}", sig), format!("{} after {} steps: {}", cfg.label(), h.len(), msg), case_json(cfg, &h));
                 }
                 let mut key = canon(&live, cfg);
-                if cfg.front.is_stack() {
+                if cfg.front.is_stack() || matches!(cfg.front, FrontKind::Generic(_)) {
                     // the stacked Cache does not expose its writer's in-memory load estimates, which decide
                     // where new keys go: without them in the key, merging would not be sound, so every
                     // history of the stacked front-end is its own state (plain depth-bounded enumeration)
@@ -919,6 +965,12 @@ pub fn configs(tier: Tier) -> Vec<(Config, usize)> {
         v.push((Config { front, cap: CapMode::Roomy, handles: 1, nkeys: 1, fixup_first: true }, if q { 4 } else { 6 }));
         v.push((Config { front, cap: CapMode::Tight, handles: 1, nkeys: 2, fixup_first: true }, if q { 3 } else { 5 }));
     }
+    // one directory through the generic builder entry point and through an explicitly sharded handle, with a capacity
+    // below the shard count
+    for n in [3usize, 4] {
+        v.push((Config { front: FrontKind::Generic(n), cap: CapMode::Tiny, handles: 2, nkeys: 2, fixup_first: false }, if q { 3 } else { 5 }));
+        v.push((Config { front: FrontKind::Generic(n), cap: CapMode::Roomy, handles: 2, nkeys: 2, fixup_first: false }, if q { 3 } else { 4 }));
+    }
     // total capacities that the shard count does not divide
     for front in [FrontKind::Sharded(3), FrontKind::Sharded(4)] {
         v.push((Config { front, cap: CapMode::Odd, handles: 1, nkeys: 4, fixup_first: false }, if q { 4 } else { 6 }));
@@ -941,7 +993,7 @@ pub fn configs(tier: Tier) -> Vec<(Config, usize)> {
 
 pub fn run(tier: Tier, shard: Shard, rep: &mut Report) {
     rep.rule = "breadth-first search over operation histories issued one at a time through 1-3 independent handles (own in-memory load \
-        estimates) on the same directories: front-ends plain, sharded (2, 3, 8 shards), stacked (sharded writer + plain read-only level; \
+        estimates) on the same directories: front-ends plain, sharded (2, 3, 8 shards), the generic builder entry point next to an explicitly sharded handle (3, 4 shards; capacity below the shard count), stacked (sharded writer + plain read-only level; \
         with and without the library's byte-equality checker, under which disagreeing copies must make the lookup fail and change nothing); \
         keys with the same shard pair, the swapped pair, and one whose secondary image equals its primary (fix-up); alphabet per handle \
         {set k A|B, put k C, get k, touch k, (stacked) ensure k D, (sharded) the handle's load estimates left in one of four patterns by peers} x environment answers {trigger fires / does not, random other shard \
